@@ -234,7 +234,7 @@ fn explore(r: usize, c: usize, cap_states: usize, acc: &mut Acc) -> (u64, u64, u
                     };
                     if noop {
                         a.count("noop_transitions");
-                        if h != st.h || h.alist() != st.h.alist() {
+                        if h != st.h || guard(|| h.alist()).ok() != guard(|| st.h.alist()).ok() {
                             a.violate(key, format!("{:?} on a matrix where it should change nothing changed it", op), replay);
                             continue;
                         }
